@@ -32,7 +32,8 @@
 (*   Learn(l)           a processes an announcement that arrived on l      *)
 (*   DropDead(l)        frames still in flight on a closed link are never  *)
 (*                      processed                                          *)
-(*   RelayOpen          a third agent opens a stream through a to b        *)
+(*   RelayOpen          a third agent (which knows b's route from an       *)
+(*                      earlier session) opens a stream through a to b     *)
 (* Closing a link wakes the read loops of both ends at once (in-memory     *)
 (* links; half-open links are not modelled): they close their own          *)
 (* connection object (keepalive thread ends) and park before Teardown.     *)
@@ -58,6 +59,7 @@ CONSTANTS MaxLink,   \* connection generations
           MaxAnn,    \* explicit announcements by b
           MaxApi,    \* Manager.Disconnect calls
           MaxRelay,  \* streams opened through a
+          KaOf,      \* agents whose keepalive thread may declare a connection dead
           Dev, Emit
 
 Agent == {"a", "b"}
@@ -65,7 +67,7 @@ Other(x) == IF x = "a" THEN "b" ELSE "a"
 Links == 1..MaxLink
 DevNames == {"DevCleanupByIdentityOnStaleCallback", "DevTeardownDeregistersByIdentity",
              "DevRegisterReplaces", "DevRejectedStillReads"}
-ASSUME Dev \subseteq DevNames
+ASSUME Dev \subseteq DevNames /\ KaOf \subseteq Agent
 
 VARIABLES nl,       \* links dialed so far
           dialer,   \* [Links -> {"-","a","b"}]
@@ -78,12 +80,11 @@ VARIABLES nl,       \* links dialed so far
           advq,     \* [Links -> Nat]  announcements of b in flight towards a
           rt,       \* 0 or the generation through which a learned b's route
           rl,       \* 0 or the generation over which a relays a stream to b
-          cknows,   \* the third agent has learned the route (needed to open streams)
           nann, napi, nrel,
           last
 
-vars == <<nl, dialer, hs, alive, reg, st, rd, ka, advq, rt, rl, cknows, nann, napi, nrel, last>>
-view == <<nl, dialer, hs, alive, reg, st, rd, ka, advq, rt, rl, cknows, nann, napi, nrel>>
+vars == <<nl, dialer, hs, alive, reg, st, rd, ka, advq, rt, rl, nann, napi, nrel, last>>
+view == <<nl, dialer, hs, alive, reg, st, rd, ka, advq, rt, rl, nann, napi, nrel>>
 
 Init ==
   /\ nl = 0
@@ -95,7 +96,7 @@ Init ==
   /\ rd = [x \in Agent |-> [l \in Links |-> "none"]]
   /\ ka = [x \in Agent |-> [l \in Links |-> "none"]]
   /\ advq = [l \in Links |-> 0]
-  /\ rt = 0 /\ rl = 0 /\ cknows = FALSE
+  /\ rt = 0 /\ rl = 0
   /\ nann = 0 /\ napi = 0 /\ nrel = 0
   /\ last = [act |-> "Init"]
 
@@ -143,21 +144,21 @@ Dial(x) ==
      /\ hs' = [hs EXCEPT ![l] = "hello"]
      /\ alive' = [alive EXCEPT ![l] = TRUE]
      /\ last' = [act |-> "Dial", x |-> x, l |-> l]
-  /\ UNCHANGED <<reg, st, rd, ka, advq, rt, rl, cknows, nann, napi, nrel>>
+  /\ UNCHANGED <<reg, st, rd, ka, advq, rt, rl, nann, napi, nrel>>
 
 AcceptHello(l) ==
   /\ hs[l] = "hello"
   /\ LET y == Other(dialer[l]) IN
      /\ Register(y, l, "ack")
      /\ last' = [act |-> "AcceptHello", x |-> y, l |-> l, kept |-> (reg[y] = {} \/ "DevRegisterReplaces" \in Dev)]
-  /\ UNCHANGED <<nl, dialer, rt, rl, cknows, nann, napi, nrel>>
+  /\ UNCHANGED <<nl, dialer, rt, rl, nann, napi, nrel>>
 
 DeliverAck(l) ==
   /\ hs[l] = "ack"
   /\ LET x == dialer[l] IN
      /\ Register(x, l, "done")
      /\ last' = [act |-> "DeliverAck", x |-> x, l |-> l, kept |-> (reg[x] = {} \/ "DevRegisterReplaces" \in Dev)]
-  /\ UNCHANGED <<nl, dialer, rt, rl, cknows, nann, napi, nrel>>
+  /\ UNCHANGED <<nl, dialer, rt, rl, nann, napi, nrel>>
 
 TeardownVars(x, l) ==
   /\ reg' = RegAfterTeardown(x, l)
@@ -165,6 +166,7 @@ TeardownVars(x, l) ==
   /\ rl' = IF Cleans(x, l) THEN 0 ELSE rl
 
 KaTimeout(x, l) ==
+  /\ x \in KaOf
   /\ ka[x][l] = "run"
   /\ alive' = [alive EXCEPT ![l] = FALSE]
   /\ rd' = RdKill(rd, l)
@@ -172,14 +174,14 @@ KaTimeout(x, l) ==
   /\ hs' = HsKill(hs, l)
   /\ TeardownVars(x, l)
   /\ last' = [act |-> "KaTimeout", x |-> x, l |-> l, stale |-> Stale(x, l)]
-  /\ UNCHANGED <<nl, dialer, st, advq, cknows, nann, napi, nrel>>
+  /\ UNCHANGED <<nl, dialer, st, advq, nann, napi, nrel>>
 
 ReadTeardown(x, l) ==
   /\ rd[x][l] = "gate"
   /\ rd' = [rd EXCEPT ![x][l] = "done"]
   /\ TeardownVars(x, l)
   /\ last' = [act |-> "ReadTeardown", x |-> x, l |-> l, stale |-> Stale(x, l)]
-  /\ UNCHANGED <<nl, dialer, hs, alive, st, ka, advq, cknows, nann, napi, nrel>>
+  /\ UNCHANGED <<nl, dialer, hs, alive, st, ka, advq, nann, napi, nrel>>
 
 ApiDisconnect(x) ==
   /\ napi < MaxApi
@@ -191,7 +193,7 @@ ApiDisconnect(x) ==
        /\ hs' = HsKill(hs, l)
        /\ last' = [act |-> "ApiDisconnect", x |-> x, l |-> l]
   /\ napi' = napi + 1
-  /\ UNCHANGED <<nl, dialer, st, advq, rt, rl, cknows, nann, nrel>>
+  /\ UNCHANGED <<nl, dialer, st, advq, rt, rl, nann, nrel>>
 
 Announce ==
   /\ nann < MaxAnn
@@ -200,14 +202,13 @@ Announce ==
        /\ advq' = [advq EXCEPT ![l] = @ + 1]
        /\ last' = [act |-> "Announce", l |-> l]
   /\ nann' = nann + 1
-  /\ UNCHANGED <<nl, dialer, hs, alive, reg, st, rd, ka, rt, rl, cknows, napi, nrel>>
+  /\ UNCHANGED <<nl, dialer, hs, alive, reg, st, rd, ka, rt, rl, napi, nrel>>
 
 Learn(l) ==
   /\ advq[l] > 0
   /\ rd["a"][l] = "run"
   /\ advq' = [advq EXCEPT ![l] = @ - 1]
   /\ rt' = l
-  /\ cknows' = TRUE
   /\ last' = [act |-> "Learn", l |-> l, registered |-> (l \in reg["a"])]
   /\ UNCHANGED <<nl, dialer, hs, alive, reg, st, rd, ka, rl, nann, napi, nrel>>
 
@@ -216,17 +217,17 @@ DropDead(l) ==
   /\ ~alive[l]
   /\ advq' = [advq EXCEPT ![l] = 0]
   /\ last' = [act |-> "DropDead", l |-> l, n |-> advq[l]]
-  /\ UNCHANGED <<nl, dialer, hs, alive, reg, st, rd, ka, rt, rl, cknows, nann, napi, nrel>>
+  /\ UNCHANGED <<nl, dialer, hs, alive, reg, st, rd, ka, rt, rl, nann, napi, nrel>>
 
 RelayOpen ==
   /\ nrel < MaxRelay
-  /\ cknows /\ rl = 0
+  /\ rl = 0
   /\ \E l \in Links :
        /\ reg["a"] = {l} /\ reg["b"] = {l} /\ alive[l] /\ advq[l] = 0
        /\ rl' = l
        /\ last' = [act |-> "RelayOpen", l |-> l]
   /\ nrel' = nrel + 1
-  /\ UNCHANGED <<nl, dialer, hs, alive, reg, st, rd, ka, advq, rt, cknows, nann, napi>>
+  /\ UNCHANGED <<nl, dialer, hs, alive, reg, st, rd, ka, advq, rt, nann, napi>>
 
 Next ==
   \/ \E x \in Agent : Dial(x) \/ ApiDisconnect(x)
@@ -257,13 +258,13 @@ StaleTeardownHarmless ==
 \* what a holds for b was created over a connection a kept
 ItemsFromKept == (rt # 0 => st["a"][rt] = "up") /\ (rl # 0 => st["a"][rl] = "up")
 
-State(n, d, h, al, rg, s, r, k, aq, t, rr, ck, na, np, nr) ==
+State(n, d, h, al, rg, s, r, k, aq, t, rr, na, np, nr) ==
   [nl |-> n, dialer |-> d, hs |-> h, alive |-> al, reg |-> rg, st |-> s, rd |-> r, ka |-> k, advq |-> aq,
-   rt |-> t, rl |-> rr, cknows |-> ck, nann |-> na, napi |-> np, nrel |-> nr]
+   rt |-> t, rl |-> rr, nann |-> na, napi |-> np, nrel |-> nr]
 
 EmitEdge ==
   Emit => PrintT("EDGE " \o ToJson([
-     s |-> State(nl, dialer, hs, alive, reg, st, rd, ka, advq, rt, rl, cknows, nann, napi, nrel),
+     s |-> State(nl, dialer, hs, alive, reg, st, rd, ka, advq, rt, rl, nann, napi, nrel),
      a |-> last',
-     t |-> State(nl', dialer', hs', alive', reg', st', rd', ka', advq', rt', rl', cknows', nann', napi', nrel')]))
+     t |-> State(nl', dialer', hs', alive', reg', st', rd', ka', advq', rt', rl', nann', napi', nrel')]))
 =============================================================================
